@@ -42,11 +42,39 @@ def programs(rnd, n):
     return res
 
 
-def comp_args(exe, extra=()):
+# option profiles: the outputs must be a function of (sources, options) for EVERY option set; a profile is
+# drawn per group of programs (debug information, line-number preservation, optimisation level ...)
+PROFILES = [
+    ["-Q2"],
+    ["-Q3"],
+    ["-Q1", "-Zdb", "-Clines"],
+    ["-Q0", "-Cstandard"],
+    ["-Q5", "-Cno-lines"],
+]
+
+
+def comp_args(exe, extra=(), profile=0):
     RB = C.RB
     return [exe, "-Nfile=%s/aldor/src/aldor.conf" % RB, "-Y%s/aldor/lib/libfoam/al" % RB,
-            "-I%s/lib/axllib/include" % RB, "-Y%s/lib/axllib/src" % RB, "-Mno-emax", "-Q2",
-            "-Fao", "-Ffm", "-Fc", "-Flsp", "-Fjava"] + list(extra)
+            "-I%s/lib/axllib/include" % RB, "-Y%s/lib/axllib/src" % RB, "-Mno-emax"] + PROFILES[profile % len(PROFILES)] + \
+           ["-Fao", "-Ffm", "-Fc", "-Flsp", "-Fjava"] + list(extra)
+
+
+def big_program(n):
+    """a large unit (about 11*n lines, axllib): the compiler's heap grows enough for its collector to matter"""
+    L = ['#include "axllib"', "", "import from SingleInteger, List SingleInteger;", ""]
+    for i in range(n):
+        L += ["g%d(l: List SingleInteger, k: SingleInteger): SingleInteger == {" % i,
+              "\ts: SingleInteger := %d;" % i,
+              "\tfor x in l repeat {",
+              "\t\tif x > k then s := s + x * %d;" % (i % 7 + 1),
+              "\t\telse s := s - x;",
+              "\t}",
+              "\tm := [x + %d for x in l];" % (i % 5),
+              "\ts + #m + first reverse m;",
+              "}", ""]
+    L += ["t: SingleInteger := 0;"] + ["t := t + g%d([1,2,3], %d);" % (i, i % 3) for i in range(n)] + ["print << t << newline;"]
+    return ("\n".join(L) + "\n").encode()
 
 
 def collect(d, names):
@@ -58,7 +86,7 @@ def collect(d, names):
     return out
 
 
-def run_variant(exe, work, tag, progs, variant):
+def run_variant(exe, work, tag, progs, variant, profile=0):
     """returns (variant, outputs hash map, normalised message text)"""
     kind = variant[0]
     d = "%s/%s" % (work, tag)
@@ -84,12 +112,12 @@ def run_variant(exe, work, tag, progs, variant):
     texts = []
     rcs = []
     if kind == "batched":
-        rc, out, err = C.run(pre + comp_args(exe, extra) + [n + ".as" for n, _ in progs], cwd=d, env=env, timeout=900)
+        rc, out, err = C.run(pre + comp_args(exe, extra, profile) + [n + ".as" for n, _ in progs], cwd=d, env=env, timeout=900)
         texts.append(out + err)
         rcs.append(rc)
     else:
         for n, _ in progs:
-            rc, out, err = C.run(pre + comp_args(exe, extra) + [n + ".as"], cwd=d, env=env, timeout=240)
+            rc, out, err = C.run(pre + comp_args(exe, extra, profile) + [n + ".as"], cwd=d, env=env, timeout=240)
             texts.append(out + err)
             rcs.append(rc)
     if 124 in rcs:
@@ -104,7 +132,7 @@ def run(rep, tier):
     C.proof_stage(rep, "C08", TARGETS, PROPS, searcher=None, defer=True)
     exe = C.build_compiler()
     rnd = C.rng("c08")
-    nprog = 6 if tier == "quick" else 40
+    nprog = 7 if tier == "quick" else 40
     progs = programs(rnd, nprog)
     work = C.scratch("c08")
     variants = [("base",), ("repeat",), ("noaslr",), ("nogc",), ("gc",), ("cwd",), ("env", 5), ("env", 40)]
@@ -113,15 +141,25 @@ def run(rep, tier):
         [(k, j) for k in (40, 100, 333, 1000, 5000) for j in sorted({0, k // 2, k - 1})]
     variants += [("forcegc", k, j) for k, j in ks]
     # programs are handled in groups so that one slow forced-GC run does not serialise everything
-    groups = [progs[i:i + 3] for i in range(0, len(progs), 3)]
+    if tier == "quick":
+        # one program per group, so that every option profile is used; one pair for the batched comparison
+        groups = [[p] for p in progs[:5]] + [progs[5:7]]
+    else:
+        groups = [progs[i:i + 3] for i in range(0, len(progs), 3)]
+    # one large unit per run, alone in its group (profile -Q3)
+    groups.append([("big%d" % (100 if tier == "quick" else 160), big_program(100 if tier == "quick" else 160))])
+    def prof(gi):
+        return 1 if gi == len(groups) - 1 else gi      # the large unit at -Q3, the others cycle through the profiles
     jobs = []
     for gi, g in enumerate(groups):
         for vi, v in enumerate(variants):
+            if gi == len(groups) - 1 and v[0] == "forcegc" and v[1] < 1000:
+                continue        # the large unit under a dense forced-collection schedule takes minutes: sparse schedules only
             jobs.append((gi, g, v, "g%d_v%d" % (gi, vi)))
         jobs.append((gi, g, ("batched",), "g%d_batched" % gi))
     results = {}
     with concurrent.futures.ThreadPoolExecutor(C.NCPU) as ex:
-        futs = {ex.submit(run_variant, exe, work, tag, g, v): (gi, v) for gi, g, v, tag in jobs}
+        futs = {ex.submit(run_variant, exe, work, tag, g, v, prof(gi)): (gi, v) for gi, g, v, tag in jobs}
         for f in concurrent.futures.as_completed(futs):
             gi, v = futs[f]
             results[(gi, v)] = f.result()
@@ -149,19 +187,20 @@ def run(rep, tier):
             if bad_out or bad_msg or base[3] != r[3] and v[0] != "batched":
                 diffs += 1
                 names = [n for n, _ in g]
-                what = "outputs differ under perturbation %s: %s%s" % (
-                    v, bad_out[:6], " and the message stream differs" if bad_msg else "")
+                what = "outputs differ under perturbation %s with options %s: %s%s" % (
+                    v, " ".join(PROFILES[prof(gi) % len(PROFILES)]), bad_out[:6], " and the message stream differs" if bad_msg else "")
                 key = "nondet:%s:%s" % (v[0], ",".join(sorted({b.split('.')[-1] for b in bad_out})) or "messages")
                 if v[0] == "batched" and bad_out and not bad_msg:
                     key = "nondet:batched:outputs"
-                rep.violation(what, {"programs": names, "variant": list(v), "differing": bad_out,
+                rep.violation(what, {"programs": names, "variant": list(v), "options": PROFILES[prof(gi) % len(PROFILES)], "differing": bad_out,
                                      "base_msgs": base[2][-800:], "variant_msgs": r[2][-800:]}, key=key)
         if len(samples) < 3:
             samples.append({"programs": [n for n, _ in g], "outputs": {k: (v[:8] if v else None) for k, v in list(base[1].items())[:6]}})
     rep.add_cov(evaluations=len(jobs), distinct_nontrivial=ncmp,
                 rule="one evaluation = compiling a group of <=3 corpus programs under one perturbation; non-trivial = compared "
                      "against the base run of the same group (all outputs + message stream)",
-                samples=samples, perturbations=[list(v) for v in variants] + [["batched"]], programs=len(progs),
+                samples=samples, perturbations=[list(v) for v in variants] + [["batched"]], programs=len(progs) + 1,
+                option_profiles=PROFILES,
                 differing_comparisons=diffs, inconclusive_time_limit=timeouts)
     rep.assume("setarch -R switches ASLR off; the default run has ASLR on",
                "ALDOR_VERIF_GC hook forces collections inside the compiler (guarded by -DALDOR_VERIF)",
